@@ -1,2 +1,3 @@
 import G9Proofs.Props.C01
 import G9Proofs.Props.C02
+import G9Proofs.Props.C20
